@@ -10,6 +10,7 @@ import (
 	"os"
 	"sort"
 	"sync"
+	"sync/atomic"
 	"testing"
 	"time"
 
@@ -357,4 +358,57 @@ func TestReplayFixedPlans(t *testing.T) {
 			}
 		}
 	}
+}
+
+// TestPropHotContention: many spinning callers on one bucket. The rate limiter reads the clock before it locks, so callers
+// that are not ordered by the flow control itself hand out the tokens of the gap between two timestamps twice.
+func TestPropHotContention(t *testing.T) {
+	sub := stats.NewSub("hot-contention", "rapid: a token bucket (qps 2000..50000, burst = qps) hammered by 16-64 spinning goroutines for 100-250 ms through the real limiter; oracle: admitted calls <= burst + qps*T, T measured around the whole run; non-trivial = all; distinct by FNV-64 of the parameters")
+	stats.Check(t, stats.N(3, 20), func(t *rapid.T) {
+		qps := int32(rapid.IntRange(2000, 50000).Draw(t, "qps"))
+		workers := rapid.IntRange(16, 64).Draw(t, "goroutines")
+		dur := time.Duration(rapid.IntRange(100, 250).Draw(t, "ms")) * time.Millisecond
+		ctx, cancel := context.WithCancel(context.Background())
+		defer cancel()
+		ul := flowcontrols.NewUpstreamLimiter(ctx, "c1", "", nil)
+		defer ul.Sync(proxyv1alpha1.FlowControl{})
+		ul.Sync(schema(qps, qps))
+		var admitted int64
+		var wg sync.WaitGroup
+		stop := make(chan struct{})
+		start := time.Now()
+		for w := 0; w < workers; w++ {
+			wg.Add(1)
+			go func() {
+				defer wg.Done()
+				n := int64(0)
+				for {
+					select {
+					case <-stop:
+						atomic.AddInt64(&admitted, n)
+						return
+					default:
+					}
+					if ul.GetOrDefault("tb").TryAcquire() {
+						n++
+					}
+				}
+			}()
+		}
+		time.Sleep(dur)
+		close(stop)
+		wg.Wait()
+		T := time.Since(start).Seconds()
+		sub.Eval()
+		bound := float64(qps) + float64(qps)*T
+		desc := fmt.Sprintf("qps=burst=%d goroutines=%d T=%.3fs admitted=%d bound=%.0f", qps, workers, T, admitted, bound)
+		if float64(admitted) > bound+1e-6 {
+			t.Fatalf("%d requests admitted in %.3f s under qps=%d burst=%d (bound %.0f) with %d spinning callers", admitted, T, qps, qps, bound, workers)
+		}
+		sub.NonTrivial(stats.Hash(qps, workers, dur))
+		sub.Note("%s", desc)
+		if sub.WantSample() {
+			sub.Sample(desc)
+		}
+	})
 }
